@@ -430,7 +430,43 @@ fn run_stream_check(opts: &Opts, prop: Prop, known: &[Known]) -> (Vec<Phase>, BT
             }
             v.and_then(|v| handle(v, Payload::Stream(t.clone())))
         });
+        // every header value: 64 reserved-bit settings x 1024 lengths, each as a valid frame (must be
+        // accepted), one byte short (Incomplete), one checksum bit off (NotValid), one byte extra
+        let t1 = Instant::now();
+        let (st_h, fail_h) = par_run(1024, opts.jobs, |l, st| {
+            let l = l as usize;
+            let payload: Vec<u8> = (0..l).map(|i| (i as u8).wrapping_mul(7).wrapping_add(l as u8)).collect();
+            for res in 0..64u8 {
+                let f = refmodel::make_frame(res, &payload);
+                let mut bad = f.clone();
+                let n = bad.len();
+                bad[n - 1 - (l % 3)] ^= 1 << (res % 8);
+                let mut ext = f.clone();
+                ext.push(0xD3);
+                for (slice, what) in [(&f[..], "valid frame"), (&f[..n - 1], "one byte short"), (&bad[..], "one checksum bit off"), (&ext[..], "one byte extra")] {
+                    st.oracle_evals += 1;
+                    if let Err(v) = judge::check_c03_slice(slice, &format!("header sweep reserved={:#04x} L={} ({})", res, l, what)) {
+                        let mut t = StreamTrace::empty("C03");
+                        t.origin = format!("sweep:c03:header:res={},L={}", res, l);
+                        t.run = (l as u64) * 64 + res as u64;
+                        t.stream = slice.to_vec();
+                        t.segments.push(trace::Segment { label: format!("foreign:L={},r={}", l, res), kind: "foreign".into(), start: 0, len: slice.len(), intact: false });
+                        t.normalise();
+                        return handle(v, Payload::Stream(t));
+                    }
+                }
+            }
+            st.probe_n("c03_header_sweep_frames", 64);
+            None
+        });
+        let mut st = st;
+        st.merge(st_h);
+        let _ = t1;
+        if let Some(f) = fail_h {
+            report_failure(opts, f);
+        }
         extra = json!({
+            "exhaustive_subspaces": ["all 65 536 header values (64 reserved-bit settings x 1024 payload lengths): valid frame accepted with the right attributes, one byte short -> Incomplete, one checksum bit off -> NotValid, one byte extra -> same verdict"],
             "length_sweep": format!("payload lengths {} x 3 fills, each delivered one byte at a time (every truncation length of every swept L)", if opts.tier == "thorough" && !opts.secondary { "0..=1023 (all)" } else { "18 boundary values" }),
             "length_sweep_traces": n,
         });
